@@ -3,7 +3,7 @@ import ast
 import itertools
 
 from vstat.loader import AnalysisError
-from vstat.terms import builder, show, SELF, NONE, G, alts, walk, mentions, phi, strip_none, neg_test
+from vstat.terms import IT, builder, show, SELF, NONE, G, alts, walk, mentions, phi, strip_none, neg_test
 from vstat.guards import path_conditions, exception_name
 from vstat.cfg import cfg_of, EXIT
 from vstat.dataflow import rd_of
@@ -86,8 +86,8 @@ def mask_sources(prog, fn, b):
         raise AnalysisError(f"{fn.qualname}: returned masks are not a local name")
     t = b.term(first, ret)
     out = []
-    if t[0] == "item" and t[1][0] == "call" and t[1][1] == ("attr", SELF, "_drop_too_small_intervals"):
-        src = t[1][2][t[2]] if isinstance(t[2], int) and t[2] < len(t[1][2]) else None
+    if t[0] == "sub" and t[2][0] == "const" and t[1][0] == "call" and t[1][1] == ("attr", SELF, "_drop_too_small_intervals"):
+        src = t[1][2][t[2][1]] if isinstance(t[2][1], int) and t[2][1] < len(t[1][2]) else None
         call_stmt = None
     else:
         src = t
@@ -143,7 +143,7 @@ def align(prog, rep, rule):
     for st in cfg_of(fn).all_stmts():
         if isinstance(st, ast.Assign) and isinstance(st.value, ast.ListComp):
             t = b.term(st.value, st)
-            sl = ("item", ("call", ("attr", SELF, "_slice"), (DATA,), ()), 0)
+            sl = IT(("call", ("attr", SELF, "_slice"), (DATA,), ()), 0)
             if t[0] == "comp" and t[4] == sl and t[2] == ("call", ("attr", SELF, "reference"), (("sub", DATA, ("sub", sl, ("idx", t[3], "iter"))),), ()):
                 ok = ("call", G("callable"), (("attr", SELF, "reference"),), ()) in path_conditions(prog, fn, b).of(st)
     rep.check(ok, rule, f"{fn.qualname}:callable-reference", fn.where(), "reference(data[mask]) for each surviving mask, same data",
@@ -259,7 +259,7 @@ def width_slicer(prog, rep):
     if E not in (None, "mismatch"):
         # boundaries
         bt = b.term(ret.value.elts[2], ret)
-        bsrc = bt[1][2][2] if bt[0] == "item" and bt[1][0] == "call" and len(bt[1][2]) == 3 else bt
+        bsrc = bt[1][2][2] if bt[0] == "sub" and bt[2][0] == "const" and bt[1][0] == "call" and len(bt[1][2]) == 3 else bt
         rep.check(is_edge_pairs(bsrc, E), "C10.bounds", f"{q}:boundaries", fn.where(ret), "boundaries = zip(E[:-1], E[1:]) of the masks' edge array",
                   f"reported boundaries must be the (lower, upper) pairs of the same edge sequence the masks use; found {show(bsrc)[:160]}")
         # references: E = append(C - w/2, C[-1] + w/2), C = arange(min, max + w, w) + w/2
@@ -386,7 +386,7 @@ def number_slicer(prog, rep):
     ret = ret_names(fn)
     if E is not None:
         bt = b.term(ret.value.elts[2], ret)
-        bsrc = bt[1][2][2] if bt[0] == "item" and bt[1][0] == "call" and len(bt[1][2]) == 3 else bt
+        bsrc = bt[1][2][2] if bt[0] == "sub" and bt[2][0] == "const" and bt[1][0] == "call" and len(bt[1][2]) == 3 else bt
         rep.check(is_edge_pairs(bsrc, E), "C10.bounds", f"{q}:boundaries", fn.where(ret), "boundaries = zip(E[:-1], E[1:]) of the masks' edge array",
                   f"reported boundaries must be the pairs of the same edge sequence the masks use; found {show(bsrc)[:160]}")
         # E = append(starts, v1); starts, width = linspace(v0, v1, num=n_intervals, endpoint=False, retstep=True)
@@ -394,17 +394,17 @@ def number_slicer(prog, rep):
         starts = width = None
         if E[0] == "call" and E[1] == G("numpy.append") and len(E[2]) == 2:
             starts, v1 = E[2]
-            if starts[0] == "item" and starts[2] == 0 and starts[1][0] == "call" and starts[1][1] == G("numpy.linspace"):
+            if starts[0] == "sub" and starts[2] == ("const", 0) and starts[1][0] == "call" and starts[1][1] == G("numpy.linspace"):
                 bd = bind(starts[1])
                 ok = (bd is not None and bd.get("stop") == v1 and bd.get("num") == ("attr", SELF, "n_intervals")
                       and bd.get("endpoint") == ("const", False) and bd.get("retstep") == ("const", True)
                       and v1[0] == "sub" and v1[2] == ("const", 1) and bd.get("start") == ("sub", v1[1], ("const", 0)))
-                width = ("item", starts[1], 1)
+                width = IT(starts[1], 1)
         rep.check(ok, "C10.refs", f"{q}:edges", fn.where(), "E = append(linspace(v0, v1, n_intervals, endpoint=False), v1)",
                   f"the edge array must be the n_intervals equally spaced starts of (v0, v1) followed by v1 itself; found {show(E)[:220]}")
         if ok:
             rt = b.term(ret.value.elts[1], ret)
-            rsrc = rt[1][2][1] if rt[0] == "item" and rt[1][0] == "call" and len(rt[1][2]) == 3 else rt
+            rsrc = rt[1][2][1] if rt[0] == "sub" and rt[2][0] == "const" and rt[1][0] == "call" and len(rt[1][2]) == 3 else rt
             rd = rd_of(fn)
             refname = None
             for st in cfg_of(fn).all_stmts():
@@ -548,7 +548,7 @@ def minimum(prog, rep):
     good = None
     for st in raises:
         pc = pcs.of(st)
-        want = ("cmp", "<", ("call", G("len"), (("item", sl, 0),), ()), ("attr", SELF, "min_n_intervals"))
+        want = ("cmp", "<", ("call", G("len"), (IT(sl, 0),), ()), ("attr", SELF, "min_n_intervals"))
         if exception_name(st, b) == "RuntimeError" and pc == (want,):
             good = st
     rep.check(good is not None, "C10.min", f"{q}:raise", fn.where(good) if good else fn.where(),
@@ -558,8 +558,8 @@ def minimum(prog, rep):
         ifnode = cfg.node(cfg.enclosing(good)[-1][0])
         rep.check(all(cfg.dominates(ifnode, cfg.node(r)) for r in rets), "C10.min", f"{q}:dominates", fn.where(),
                   "the size test dominates every return", "the interval-count test must be on every path to the return")
-    okr = len(rets) == 1 and isinstance(rets[0].value, ast.Tuple) and b.term(rets[0].value.elts[0], rets[0]) == ("item", sl, 0) \
-        and b.term(rets[0].value.elts[2], rets[0]) == ("item", sl, 2)
+    okr = len(rets) == 1 and isinstance(rets[0].value, ast.Tuple) and b.term(rets[0].value.elts[0], rets[0]) == IT(sl, 0) \
+        and b.term(rets[0].value.elts[2], rets[0]) == IT(sl, 2)
     rep.check(okr, "C10.min", f"{q}:returns", fn.where(), "returns the masks and boundaries of _slice(data) unchanged",
               "slice_ must return the masks and boundaries computed by _slice(data)")
 
